@@ -398,16 +398,47 @@ Example C13_location_example :
 Proof. vm_compute. reflexivity. Qed.
 
 (* ------------------------------------------------------------------ *)
-(* Read/Seek on a blob reader of a range-capable registry = an in-memory reader over the
+(* Read/Seek on a blob reader, with the registry model (any profile with range support)
+   answering the Range requests, = an in-memory reader over the
    blob's bytes, for every script and every behaviour of the response bodies (chunking,
    data together with io.EOF); a Range request "bytes=off-(size-1)" is emitted exactly when
    the position changes to an offset inside the blob. *)
 Theorem C13_seek :
-  forall (modes : nat -> bmode) content os,
-    rsc_run modes content (rsc_open content (len content)) os
-    = ref_run modes content (mkPos 0 false 0) os.
+  forall (modes : nat -> bmode) (p : profile) (d : str),
+    p_range p = true ->
+    forall content os,
+      rsc_run modes (range_srv p d content None) (rsc_open content (len content)) os
+      = ref_run modes content (mkPos 0 false 0) os.
 Proof. exact seek_refines. Qed.
 Print Assumptions C13_seek.
+
+(* Seek against ANY server (arbitrary, also corrupted, answers to the Range request): at most
+   one request, for bytes t..size-1 with t inside the blob, and it is one the specification
+   allows; a reconnect is accepted only from a 206 whose Content-Length is absent or the length
+   of the requested range, and the reader then serves that response's body.  (The digest header
+   of a 206 is not looked at: known finding seek-206-digest-unverified.) *)
+Theorem C13_seek_request_shape :
+  forall (modes : nat -> bmode) (srv : nat -> N -> N -> response) k o k1 rq out,
+    rsc_step modes srv k o = (k1, rq, out) ->
+    rq = [] \/ exists t, rq = [(t, k_size k - 1)] /\ t < k_size k /\ k_rq k1 = S (k_rq k).
+Proof. exact seek_request_shape. Qed.
+Print Assumptions C13_seek_request_shape.
+
+Theorem C13_seek_request_allowed :
+  forall (modes : nat -> bmode) (srv : nat -> N -> N -> response) main d k o k1 a bb out,
+    valid_repository main = true -> valid_digest d = true ->
+    rsc_step modes srv k o = (k1, [(a, bb)], out) ->
+    allowed (mkReq GET main (EBlob d) None None None None None (Some (a, bb)) []) = true.
+Proof. exact seek_request_allowed. Qed.
+Print Assumptions C13_seek_request_allowed.
+
+Theorem C13_corruption_rejected_seek :
+  forall (modes : nat -> bmode) (srv : nat -> N -> N -> response) k off w k1 t0 b0 t,
+    rsc_step modes srv k (SSeek off w) = (k1, [(t0, b0)], SPos t) ->
+    let r := srv (k_rq k) t (k_size k - 1) in
+    t0 = t /\ r_status r = 206 /\ len_consistent r (k_size k - t) /\ k_rc k1 = r_body r /\ k_off k1 = t.
+Proof. exact seek_accepts_consistent. Qed.
+Print Assumptions C13_corruption_rejected_seek.
 
 (* the readers C13_seek speaks of are the ones the client hands out: in every capability
    profile (also ranges without Content-Length on the GET, where the descriptor comes from a
@@ -452,7 +483,8 @@ Print Assumptions C13_seek_read.
 (* non-vacuity: a body that delivers 3 bytes per call and the last ones together with EOF;
    read to the very end, ask for the position, step back, re-read, seek to the same place *)
 Example C13_seek_example :
-  rsc_run (fun _ => mkBm 3 true) (b "hello world") (rsc_open (b "hello world") 11)
+  rsc_run (fun _ => mkBm 3 true) (range_srv (mkProfile true true true false false) zero_digest (b "hello world") None)
+          (rsc_open (b "hello world") 11)
           [SRead 2; SSeek 6 SeekStart; SRead 100; SRead 100; SSeek 0 SeekCurrent; SRead 1;
            SSeek (-1) SeekCurrent; SRead 5; SSeek 11 SeekStart; SSeek 0 SeekEnd]
   = [([], SData (b "he") false); ([(6, 10)], SPos 6); ([], SData (b "wor") false);
